@@ -30,4 +30,10 @@ with LeanLock():
     comps = gen_lake()
     # only what registered checks need (files of properties still under construction are not built here)
     rc = subprocess.call(["lake", "build"] + modules + ["iora_model_" + c for c, _, _ in comps], cwd=LEAN)
+if rc != 0:
+    # Setup only warms the lake workspace. A module that does not build (for instance because the working tree of
+    # joegen/iora changed and a regenerated Gen file no longer satisfies an obligation) is reported by the check of the
+    # property that owns it, with a VIOLATION line and a replay file; it must not keep the other checks from running.
+    print("setup: lake build reported failures (rc=%d); each affected check rebuilds its own modules and reports them" % rc)
+    rc = subprocess.call(["lake", "--version"], cwd=LEAN)   # only a missing toolchain fails the setup
 sys.exit(rc)
